@@ -100,6 +100,12 @@ func NewAgg() *Agg {
 func (a *Agg) Merge(b *Agg) {
 	a.Evaluations += b.Evaluations
 	for k, v := range b.Counters {
+		if strings.HasPrefix(k, "peak-") { // a maximum, not a sum
+			if v > a.Counters[k] {
+				a.Counters[k] = v
+			}
+			continue
+		}
 		a.Counters[k] += v
 	}
 	for g, m := range b.Classes {
